@@ -90,6 +90,20 @@ def handle : Handler
           | .ok ((hs, none), log) => xhList hs ++ " saved=" ++ showSavedG log
           | .ok ((_, some e), log) => errKind e ++ " saved=" ++ showSavedG log
           | .error e => e.toString ++ " saved=none")
+  | "readuni", [n, h, idx, fs, seed] => do
+    let n ← n.toNat?; let h ← h.toNat?; let idx ← natList idx; let fs ← Tile.faults? fs; let seed ← seed.toNat?
+    let lv := Tile.uniLevels seed
+    let tr : TileReader := {
+      Height := h,
+      ReadTiles := fun ts =>
+        match ts.mapM (fun t => (Tile.serveWith (Tile.uniTile lv n) fs (ofG t)).map List.flatten) with
+        | some ds => (ds, none)
+        | none => ([], some "tilereader: missing tile") }
+    let r : tileHashReader Bytes := { tree := { N := n, Hash := Tile.uniTreeHash lv n }, tr := tr }
+    pure (match tileHashReader_ReadHashes nodeH id F r (idx.map Int.ofNat) with
+      | .ok ((hs, none), log) => xhList hs ++ " saved=" ++ showSavedG log
+      | .ok ((_, some e), log) => errKind e ++ " saved=" ++ showSavedG log
+      | .error e => e.toString ++ " saved=none")
   | _, _ => none
 
 end ModVerif.Drv.GenTile
